@@ -209,6 +209,19 @@ func c11Buffer() {
 		default:
 		}
 	}()
+	if setCfg {
+		// two more tasks reconfigure the buffer at about the same time (different pairs), while the
+		// observer above reads the configuration
+		for k := 0; k < 2; k++ {
+			k := k
+			go func() {
+				<-time.After(time.Duration(k) * time.Microsecond)
+				_ = b.SetCleanerConfig(bigbuff.CleanerConfig{Cleaner: bigbuff.DefaultCleaner, Cooldown: cool + time.Duration(k)})
+				b.CleanerConfig()
+			}()
+		}
+		simrt.Probe("concurrent_reconfiguration")
+	}
 	simrt.Quiesce(-1)
 	cancel()
 	simrt.Quiesce(-1)
